@@ -72,6 +72,9 @@ FunctionMenu == {
   Sel(<<P(NegE(V), "neg"), P(Arith("+", V, Lit(Null)), "vn"), P(IsE(TRUE, Arith("*", V, Lit(Null)), Lit(Null)), "isn")>>, NoE, FALSE, NoLimit, "none"),
   Sel(<<P(V, "")>>, InE(FALSE, K, <<Lit(A), Lit(Null)>>), FALSE, NoLimit, "none"),
   Sel(<<P(V, "")>>, InE(TRUE, V, <<One, Two>>), FALSE, NoLimit, "none"),
+  \* a WHEN condition that has no value on some row (100 / 0) is an error, not a condition that is false
+  Sel(<<P(CaseE(<<<<CmpE(">", Arith("/", Lit(IntV(100)), V), Lit(IntV(10))), Lit(TextV(<<115>>))>>>>, Lit(TextV(<<122>>))), "size")>>, NoE, FALSE, NoLimit, "none"),
+  Sel(<<P(K, "")>>, CaseE(<<<<CmpE("=", Cast(K, "int"), One), Lit(BoolV(TRUE))>>>>, Lit(BoolV(FALSE))), FALSE, NoLimit, "none"),
   Sel(<<P(Arith("+", K, One), "bad")>>, NoE, FALSE, NoLimit, "none"),                                               \* TEXT + INT: type mismatch
   Sel(<<P(Call("length", <<V>>), "bad")>>, CmpE("=", K, Lit(B)), FALSE, NoLimit, "none")                            \* length(INT): error only on rows that pass WHERE
 }
@@ -92,6 +95,9 @@ DistinctMenu == {
   Agg(<<ItE("min", V, "lo")>>, <<K>>, NoE, NoH, TRUE, NoLimit, "none"),
   Agg(<<CountStar>>, <<K>>, NoE, HAgg(MaxOfV, ">", IntV(1)), TRUE, NoLimit, "none"),
   Agg(<<CountStar, ItE("min", V, "lo")>>, <<K>>, NoE, [h |-> "keynull", e |-> K, neg |-> TRUE], TRUE, NoLimit, "none"),
+  \* three columns whose outer values are exchanged between rows: (a, v, b) and (b, v, a) are different tuples
+  Sel(<<P(K, ""), P(V, ""), P(CaseE(<<<<CmpE("=", K, Lit(A)), Lit(B)>>>>, Lit(A)), "o")>>, NoE, TRUE, NoLimit, "none"),
+  Sel(<<P(V, ""), P(K, ""), P(V, "v2"), P(K, "k2")>>, NoE, TRUE, NoLimit, "none"),
   \* DISTINCT on a projection of only some of the group keys: groups that differ in the other key show equal rows
   Agg(<<ItE("key", V, "v")>>, <<K, V>>, NoE, HAgg(CountStar, ">=", IntV(1)), TRUE, NoLimit, "none"),
   Agg(<<KeyK>>, <<K, V>>, NoE, HAgg(CountStar, ">=", IntV(1)), TRUE, NoLimit, "none")
@@ -146,6 +152,10 @@ AggMenu ==
               [ItC("count_distinct", "v", "d") EXCEPT !.wrap = Arith("-", Lit(IntV(100)), Col("$value"))], [MinOfV EXCEPT !.wrap = Arith("*", Col("$value"), Lit(IntV(2)))]>>, <<K>>, NoE, NoH, FALSE, NoLimit, "none"),
         Agg(<<KeyK, [SumV EXCEPT !.wrap = Arith("+", One, Arith("*", Col("$value"), Lit(IntV(2))))], [MaxOfV EXCEPT !.wrap = Arith("*", Lit(IntV(2)), Arith("+", Col("$value"), One))],
               [CountStar EXCEPT !.wrap = Arith("-", Lit(IntV(100)), Arith("*", Col("$value"), Lit(IntV(10))))]>>, <<K>>, NoE, NoH, FALSE, NoLimit, "none"),
+        \* HAVING over two (three) aggregates of which only the first is also in the select list
+        Agg(<<KeyK, CountStar>>, <<K>>, NoE, [h |-> "and", l |-> HAgg(CountStar, ">=", IntV(2)), r |-> HAgg(MaxOfV, ">", IntV(1))], FALSE, NoLimit, "none"),
+        Agg(<<KeyK, CountStar>>, <<K>>, NoE, [h |-> "or", l |-> HAgg(CountStar, ">=", IntV(3)), r |-> [h |-> "or", l |-> HAgg(MinOfV, ">", IntV(1)), r |-> HAgg(MaxOfV, "<", IntV(0))]], FALSE, NoLimit, "none"),
+        Agg(<<KeyK, SumV>>, <<K>>, NoE, [h |-> "and", l |-> HAgg(MaxOfV, ">=", IntV(1)), r |-> HAgg(SumV, ">", IntV(1))], FALSE, NoLimit, "none"),
         \* wrappers whose outer node is a unary minus, NOT or a cast around a deeper arithmetic wrapper; the aggregate deep inside a CASE
         Agg(<<KeyK, [SumV EXCEPT !.wrap = NegE(Arith("+", Col("$value"), One))], [MaxOfV EXCEPT !.wrap = Cast(Arith("*", Col("$value"), Lit(IntV(3))), "text")],
               [CountStar EXCEPT !.wrap = NotE(CmpE(">", Arith("*", Col("$value"), Two), Lit(IntV(2))))], [MinOfV EXCEPT !.wrap = NegE(Col("$value"))]>>, <<K>>, NoE, NoH, FALSE, NoLimit, "none"),
@@ -183,6 +193,7 @@ BoundaryMenu ==
   \cup {ExprOnly(Cast(Lit(TextV(t_)), ty)) : t_ \in {Digits19, Append(Digits19, 48), <<45>> \o Digits19, <<49, 50>>, <<49, 46, 53>>, <<97>>, <<>>, <<116, 114, 117, 101>>}, ty \in {"int", "real", "boolean", "text"}}
   \cup {ExprOnly(Cast(Lit(x), "text")) : x \in {IntV(-12), BoolV(FALSE), RealV(3, 2), RealV(-1, 4)}}
   \cup {ExprOnly(CaseE(<<<<Lit(c), Lit(IntV(1))>>>>, Arith("/", One, Zero))) : c \in {BoolV(TRUE), BoolV(FALSE), Null}}
+  \cup {ExprOnly(CaseE(<<<<CmpE("=", Arith("/", One, Zero), One), Lit(IntV(1))>>>>, Lit(IntV(2)))), ExprOnly(CaseE(<<<<Lit(BoolV(FALSE)), Lit(IntV(1))>>, <<CmpE("<", NegE(Lit(MinV(0))), One), Lit(IntV(2))>>>>, Lit(IntV(3))))}
   \cup {ExprOnly(BoolE(f, Lit(x), CmpE("=", Arith("/", One, Zero), One))) : f \in {"and", "or"}, x \in {BoolV(TRUE), BoolV(FALSE), Null}}
   \cup {ExprOnly(InE(ng, Lit(x), <<Lit(y), Lit(z)>>)) : ng \in BOOLEAN, x \in {Null, IntV(1)}, y \in {Null, IntV(1), IntV(2)}, z \in {Null, IntV(2)}}
   \cup {ExprOnly(NotE(InE(ng, Lit(x), <<Lit(y), Lit(z)>>))) : ng \in BOOLEAN, x \in {Null, IntV(1)}, y \in {Null, IntV(1), IntV(2)}, z \in {Null, IntV(2)}}       \* NOT over IN is not NOT IN (two-valued logic, NULL)
@@ -217,6 +228,8 @@ CalMenu ==
    CalSel(<<P(CmpE("=", TsUs(123456), TsUs(123457)), "eq"), P(CmpE("<", TsUs(123456), TsUs(123457)), "lt"), P(CmpE("!=", TsUs(123999), TsUs(123000)), "ne"),
             P(InE(FALSE, TsUs(123456), <<TsUs(123457), TsUs(123000)>>), "isin"), P(CaseE(<<<<CmpE(">=", TsUs(123456), TsUs(123457)), One>>>>, Two), "c"),
             P(Call("greatest", <<TsUs(123456), TsUs(123457)>>), "g"), P(Arith("-", TsUs(124000), TsUs(123000)), "d")>>, NoE),
+   CalSel(<<P(CmpE("<", T_(<<50, 48, 50, 49, 45, 48, 51, 45, 48, 50, 32, 48, 53, 58, 48, 54, 58, 48, 55>>), TsOfV), "lt"), P(CmpE(">=", T_(<<50, 48, 50, 49, 45, 48, 51, 45, 48, 50, 32, 48, 53, 58, 48, 54, 58, 48, 55>>), TsOfV), "ge"), P(CmpE(">", TsOfV, T_(<<50, 48, 50, 49, 45, 48, 51, 45, 48, 50, 32, 48, 53, 58, 48, 54, 58, 48, 55>>)), "gt"),
+            P(CmpE("<=", T_(<<50, 48, 50, 49, 45, 48, 51, 45, 48, 51, 32, 48, 48, 58, 48, 48, 58, 48, 48>>), TsRef), "le")>>, NoE),
    CalSel(<<P(CmpE("<", TsOfV, T_(<<121, 101, 115, 116, 101, 114, 100, 97, 121>>)), "bad")>>, OnRow1),
    CalSel(<<P(Cast(T_(<<50, 48, 50, 49, 45, 48, 51, 45, 48, 52, 32, 48, 53, 58, 48, 54, 58, 48, 55>>), "timestamp"), "c"), P(CmpE("=", Cast(T_(<<50, 48, 50, 49, 45, 48, 51, 45, 48, 52, 32, 48, 53, 58, 48, 54, 58, 48, 55>>), "timestamp"), TsRef), "same"),
             P(Cast(T_(<<50, 48, 50, 49, 45, 48, 50, 45, 51, 48, 32, 48, 53, 58, 48, 54, 58, 48, 55>>), "timestamp"), "nosuchday")>>, OnRow1),
@@ -299,6 +312,8 @@ PrecMenu == {
            P(Arith("-", Arith("-", V, Idx(Arr78, One)), One), "e"),                            \* v - array[7, 8][1] - 1
            P(Arith("+", Arith("*", V, Two), Arith("*", I_(3), V)), "f"),                       \* v * 2 + 3 * v
            P(Arith("*", Arith("+", V, Two), I_(3)), "g")>>, NoE),                               \* (v + 2) * 3
+  SelMin(<<P(Arith("-", Arith("-", V, One), Two), "h"), P(Arith("-", Arith("-", Arith("-", V, I_(5)), Two), One), "i"), P(Arith("*", Arith("*", V, Two), I_(3)), "j"),
+           P(Arith("/", Arith("/", Arith("*", V, I_(12)), Two), I_(3)), "k2"), P(Arith("-", Arith("+", V, One), Two), "l"), P(Arith("+", Arith("-", V, One), Two), "m2")>>, NoE),     \* v - 1 - 2, v - 5 - 2 - 1, v * 2 * 3, v * 12 / 2 / 3, v + 1 - 2, v - 1 + 2
   SelMin(<<P(V, "v"), P(K, "k")>>, BoolE("or", CmpE("=", V, One), BoolE("and", CmpE("=", V, Two), CmpE("=", K, Lit(A))))),      \* v = 1 OR v = 2 AND k = 'a'
   SelMin(<<P(V, "v")>>, BoolE("and", BoolE("or", CmpE("=", V, One), CmpE("=", V, Two)), CmpE("=", K, Lit(A)))),                  \* (v = 1 OR v = 2) AND k = 'a'
   SelMin(<<P(V, "v")>>, NotE(CmpE("=", V, One))),                                                                                \* NOT v = 1
@@ -335,8 +350,14 @@ JoinMenu == {
   Agg(<<ItE("key", W, "w"), ItE("min", V, "lo"), CountStar>>, <<W>>, NoE, NoH, FALSE, NoLimit, "inner"),
   \* DISTINCT on an aggregate over a join: the duplicate lines of the joined file still count (DISTINCT only removes equal result rows)
   Agg(<<KeyK, CountStar, ItE("sum", W, "sw")>>, <<K>>, NoE, NoH, TRUE, NoLimit, "inner"),
-  Agg(<<CountStar>>, <<K>>, NoE, NoH, TRUE, NoLimit, "inner")
+  Agg(<<CountStar>>, <<K>>, NoE, NoH, TRUE, NoLimit, "inner"),
+  \* an aggregate whose WHERE looks at the joined side: partners of one line that pass and fail in either order
+  Agg(<<KeyK, CountStar, ItE("sum", W, "sw")>>, <<K>>, CmpE(">", W, Zero), NoH, FALSE, NoLimit, "inner"),
+  Agg(<<CountStar, ItE("max", W, "hi")>>, <<>>, CmpE("<", W, Lit(IntV(5))), NoH, FALSE, NoLimit, "inner")
 }
+\* C05: a joined file that does not exist / an ON column the joined table lacks is an error -- with any LIMIT (LIMIT 0 included), with or without input
+BadJoinMenu == {[s EXCEPT !.join = j, !.limit = n] : s \in {Star(NoE, FALSE, NoLimit, "inner"), Sel(<<P(K, "")>>, NoE, TRUE, NoLimit, "inner"),
+                                                            Agg(<<KeyK, CountStar>>, <<K>>, NoE, NoH, FALSE, NoLimit, "inner")}, j \in {"badfile", "badcol", "dirfile"}, n \in {NoLimit, 0, 1}}
 
 \* C16: every consumer of the value order on every pair of same-kind values of the boundary universe
 Renderable(x) == ~IsNull(x) /\ (x.t = "arr" => (x.xs # <<>> /\ \E i \in 1..Len(x.xs) : ~IsNull(x.xs[i])))
@@ -395,6 +416,7 @@ LinesNoise == {KV(A, IntV(1)), KV(B, IntV(2)), KV(A, Null), KV(Null, IntV(3)), K
 LinesNoiseDefault == {KV(A, IntV(1)), KV(Null, IntV(3)), KV(Null, Null), BigV, Garbage}        \* for the DEFAULT table: a value group that takes part but is no INT literal
 \* statements whose WHERE looks at `input` alone and has no value on a noise line ("###": 10 / (3 - 3)): noise never reaches the evaluator
 NoiseMenu == CoreLimitMenu \cup {
+  Agg(<<CountStar>>, <<>>, NoE, NoH, FALSE, NoLimit, "none"),             \* COUNT(*) alone: a line that matches the pattern without giving a row is not counted
   Sel(<<P(K, ""), P(V, "")>>, CmpE(">", Arith("/", Lit(IntV(10)), Arith("-", Call("length", <<Col("input")>>), Lit(IntV(3)))), Zero), FALSE, NoLimit, "none"),
   Agg(<<CountStar>>, <<>>, CmpE(">", Arith("/", Lit(IntV(10)), Arith("-", Call("length", <<Col("input")>>), Lit(IntV(3)))), Zero), NoH, FALSE, NoLimit, "none"),
   Sel(<<P(Col("input"), "")>>, CmpE("!=", Cast(Call("lower", <<Col("input")>>), "text"), Lit(TextV(<<>>))), TRUE, NoLimit, "none")}
